@@ -13,8 +13,7 @@ def run(ses):
     # declared dtype / shape == dtype / shape of the loaded selection (all row selections incl. empty, both sample types)
     from pyvc.harness import run_cases
 
-    run_cases(ses, "props.arraychain", "case_getitem", [("IU2", "slice_sym", "slice_none"), ("C*8", "slice_sym", "slice_none"),
-                                                       ("C*8", "int", "slice_sym")])
+    run_cases(ses, "props.arraychain", "case_getitem", [("IU2", "slice_sym", "slice_none"), ("C*8", "slice_sym", "slice_none")])
     ses.trust(*TRUST[:4], "xarray computes nbytes / repr from `.dtype` / `.shape` of a BackendArray (T6)")
 
 
